@@ -446,3 +446,184 @@ GROUPS.append(Group('S5', "string directives 'rgb(r,g,b)', 'rgb(0xRRGGBB)', '[fg
                                                                               'AnsiFormat.rgb', 'AnsiFormat.color256'],
                     s5_items, s5_task, bounds='templates with 1-3 symbolic decimal digits (1-6 hex digits) per value, optional '
                     'blanks / brackets, all five prefixes, color/colour; a list of malformed strings', assumes=['S1']))
+
+
+# ------------------------------------------------------------------------------------------ S2: rejected spellings
+CL_REJECT = [Clause('rejected-not-accepted', 'post_never_returns')]
+BAD_NAMES = ('blod', 'red!', 'bold,red', ' ', 'rgb', '1.5', '0x10', 'fg_', 'bold;;nope', 'bold;nope', 'rgb(1,2)', 'rgb(1,2,3',
+             'color256()', 'colr256(1)', 'rgb(1;2;3)', 'xg_rgb(1,2,3)', 'rgb(1,2,3,4)', 'rgb(-1,2,3)', 'color256(-1)', 'RGB(1,2,3)x',
+             '1;-2', 'bold red', '_bold', 'bold_', '--', 'ul_rgb', 'fg_color256(1.0)', 'rgb(g,0,0)')
+
+
+def s2_items(tier):
+    out = [['neg', w] for w in ('top', 'list', 'nested', 'tuple', 'after-name', 'str', 'str-second')]
+    out += [['name', b] for b in BAD_NAMES]
+    out += [['char', lo] for lo in (0, 1)]
+    out += [['type', t] for t in ('none', 'float', 'dict', 'bytes', 'bool-in-dict', 'nested-none', 'set-obj-prop')]
+    out += [['self', w] for w in ('direct', 'indirect', 'deep', 'tuple-in-list')]
+    return out
+
+
+def s2_task(envr, item):
+    kind, what = item
+    I = envr.interp
+    expected_exc = 'TypeError' if kind == 'type' else 'ValueError'
+    raises = {expected_exc: None}
+
+    def body(c):
+        mu = bool(c.choice(2))
+        if kind == 'neg':
+            v = c.named_int('v')
+            c.assume(i_cmp('<', v, 0))
+            if what == 'top':
+                arg = v
+            elif what == 'list':
+                arg = sym.PList([1, v])
+            elif what == 'nested':
+                arg = sym.PList(['bold', (sym.PList([v]),)])
+            elif what == 'tuple':
+                arg = (v, 4)
+            elif what == 'after-name':
+                arg = sym.PList(['red', v])
+            else:
+                c.assume(i_cmp('>=', v, -999))
+                atoms = [('istr', v)] if what == 'str' else [('lit', '1;'), ('istr', v)]
+                arg = sym.expand_istr(sym.mk_rope(atoms))
+        elif kind == 'name':
+            arg = what
+        elif kind == 'char':
+            # one or two characters that are neither digits, ';', '[' nor letters/space/-/_ (no member name, no number)
+            cps = [c.named_int('ch%d' % i, 33, 126) for i in range(1 + what)]
+            for cp in cps:
+                c.assume(b_and(b_or(i_cmp('<', cp, 48), i_cmp('>', cp, 57)), i_cmp('!=', cp, 59), i_cmp('!=', cp, 91),
+                               i_cmp('!=', cp, 45), i_cmp('!=', cp, 95), i_cmp('!=', cp, 43),
+                               b_or(i_cmp('<', cp, 65), i_cmp('>', cp, 90)), b_or(i_cmp('<', cp, 97), i_cmp('>', cp, 122))))
+            arg = sym.s_from_chars(cps)
+        elif kind == 'type':
+            if what == 'none':
+                arg = sym.PList([None])
+            elif what == 'float':
+                arg = sym.PList([1.5])
+            elif what == 'dict':
+                arg = sym.PList([sym.PDict()])
+            elif what == 'bytes':
+                arg = sym.PList([b'1'])
+            elif what == 'bool-in-dict':
+                arg = sym.PDict()
+            elif what == 'nested-none':
+                arg = sym.PList(['bold', sym.PList([sym.PList([None])])])
+            else:
+                arg = sym.PList([1, 2.0])
+        else:
+            if what == 'direct':
+                arg = sym.PList([1])
+                arg.items.append(arg)
+            elif what == 'indirect':
+                a = sym.PList(['bold'])
+                b = sym.PList([a])
+                a.items.append(b)
+                arg = a
+            elif what == 'deep':
+                a = sym.PList(['bold'])
+                arg = sym.PList([1, sym.PList([2, sym.PList([3, a])])])
+                a.items.append(arg)
+            else:
+                a = sym.PList(['red'])
+                a.items.append((a,))
+                arg = a
+        run_contract(envr, c, '_AnsiSettingPoint._scrub_ansi_settings', None, [arg, mu], {}, CL_REJECT, raises=raises)
+    return ContractRun(body, CL_REJECT, raises=raises)
+
+
+GROUPS.append(Group('S2', 'negative integers (any position, any nesting, in a string), unknown names and malformed directives raise '
+                    'ValueError; unsupported types TypeError; a list that contains itself ValueError', ['C14', 'C09'], 'B',
+                    ['_AnsiSettingPoint._scrub_ansi_settings', '_AnsiSettingPoint._scrub_ansi_format_string',
+                     '_AnsiSettingPoint._scrub_ansi_format_int', '_AnsiSettingPoint._parse_rgb_string'], s2_items, s2_task,
+                    bounds='all negative integers at 7 positions; %d malformed strings; all 1-2 character strings of ASCII '
+                    'punctuation; 7 unsupported-type shapes; 4 self-containing shapes' % len(BAD_NAMES)))
+
+
+# ------------------------------------------------------------------------------------------ S6: mixtures of forms
+CL_MIX = [Clause('list-is-concatenation-of-its-elements', 'post_scrub_concat'),
+          Clause('make-unique-copies-setting-objects', 'post_scrub_unique_mix')]
+S6_KINDS = ('name', 'enum', 'int', 'setobj', 'rgbstr', 'c256str', 'intstr', 'verbatim', 'nested', 'empty', 'helper')
+S6_STRINGY = ('name', 'rgbstr', 'c256str', 'intstr', 'empty')
+
+
+def s6_items(tier):
+    out = []
+    for a in S6_KINDS:
+        for b in S6_KINDS:
+            out.append([a, b])
+    return out
+
+
+def _s6_value(envr, c, kind, tag):
+    """(value, objects handed in) of one element of the given kind; integers never are colour-group introducers"""
+    I = envr.interp
+    fmt = envr.program.enum_native['AnsiFormat']
+    if kind == 'name':
+        return ['Bold', 'bg-blue', 'UL RED', 'dul_rgb(1,2,3)'][c.choice(4)], []
+    if kind == 'enum':
+        return I.lift_enum(fmt[['ITALIC', 'FG_ORANGE', 'UL_BLUE'][c.choice(3)]]), []
+    if kind == 'int':
+        v = c.named_int('i' + tag, 0, 255)
+        c.assume(b_and(i_cmp('!=', v, 38), i_cmp('!=', v, 48), i_cmp('!=', v, 58)))
+        return v, []
+    if kind == 'setobj':
+        o = I.instantiate('AnsiSetting', [['1', '38;5;7', 'zz'][c.choice(3)]], {})
+        return o, [o]
+    if kind == 'rgbstr':
+        return ['rgb(1,2,3)', 'bg_rgb(0x102030)', 'ul_rgb( 300, 0 ,1 )'][c.choice(3)], []
+    if kind == 'c256str':
+        return ['color256(7)', 'dul_colour256(0x10)'][c.choice(2)], []
+    if kind == 'intstr':
+        v = c.named_int('s' + tag, 0, 255)
+        c.assume(b_and(i_cmp('!=', v, 38), i_cmp('!=', v, 48), i_cmp('!=', v, 58)))
+        return sym.expand_istr(sym.mk_rope([('istr', v)])), []
+    if kind == 'verbatim':
+        return ['[1', '[38;5;1', '[?'][c.choice(3)], []
+    if kind == 'nested':
+        o = I.instantiate('AnsiSetting', ['3'], {})
+        v = c.named_int('n' + tag, 0, 255)
+        c.assume(b_and(i_cmp('!=', v, 38), i_cmp('!=', v, 48), i_cmp('!=', v, 58)))
+        return sym.PList(['bold', (v, o), sym.PList([])]), [o]
+    if kind == 'empty':
+        return '', []
+    res = I.call_name('AnsiFormat.rgb', c.named_int('r' + tag, 0, 255), 2, 3)
+    return res, list(res.items)
+
+
+def s6_task(envr, item):
+    ka, kb = item
+    I = envr.interp
+
+    def body(c):
+        mu = bool(c.choice(2))
+        a, oa = _s6_value(envr, c, ka, 'a')
+        b, ob = _s6_value(envr, c, kb, 'b')
+        ea = I.call_name('texts', I.call_name('_AnsiSettingPoint._scrub_ansi_settings', a))
+        eb = I.call_name('texts', I.call_name('_AnsiSettingPoint._scrub_ansi_settings', b))
+        expected = sym.PList(list(ea.items) + list(eb.items))
+        forms = ['list', 'tuple']
+        if ka in S6_STRINGY and kb in S6_STRINGY:
+            forms.append('joined')
+        form = forms[c.choice(len(forms))]
+        if form == 'list':
+            arg = sym.PList([a, b])
+        elif form == 'tuple':
+            arg = (a, b)
+        else:
+            arg = sym.s_concat(sym.s_concat(a, ';'), b)
+        run_contract(envr, c, '_AnsiSettingPoint._scrub_ansi_settings', None, [arg, mu], {}, CL_MIX,
+                     fields={'expected': expected, 'given_objects': sym.PList(oa + ob)}, raises=RAISES_S, frame=('settings',),
+                     arg_names=['settings', 'make_unique'])
+    return ContractRun(body, CL_MIX, raises=RAISES_S, frame=('settings',), use=('K1',), names=['settings', 'make_unique'])
+
+
+GROUPS.append(Group('S6', 'mixtures: a list / tuple of two elements of any two forms (name, member, int, AnsiSetting, rgb()/color256() '
+                    'string, integer string, verbatim, nested list, empty string, helper result) and the ";"-joined string of two '
+                    'string forms yield the settings of the first followed by the settings of the second; make_unique copies',
+                    ['C14'], 'B', ['_AnsiSettingPoint._scrub_ansi_settings', '_AnsiSettingPoint._scrub_ansi_format_string'],
+                    s6_items, s6_task, bounds='two elements; 11 forms each with 1-4 representatives, integers symbolic 0..255',
+                    assumes=['S3', 'S5', 'J1']))
